@@ -12,6 +12,7 @@ import OsacaVerif.Driver.C19
 import OsacaVerif.Driver.C09
 import OsacaVerif.Driver.C10
 import OsacaVerif.Driver.C07
+import OsacaVerif.Driver.Roles
 open OsacaVerif OsacaVerif.Proto
 
 /-- one handler per property module; the first that recognises the op answers -/
@@ -28,7 +29,8 @@ def handlers : List (Req → Option String) := [
   Driver.C19.handle,
   Driver.C09.handle,
   Driver.C10.handle,
-  Driver.C07.handle
+  Driver.C07.handle,
+  Driver.Roles.handle
 ]
 
 def dispatch (r : Req) : String :=
